@@ -100,8 +100,13 @@ class Runner:
             return None
         if op[0] == 'queue_internal':
             # an InternalEvent instance handed to queue() from outside: it goes to the internal queue; nothing was *sent*
+            # (the CHANGELOG says queue() no longer accepts InternalEvent while the code does: an interpreter that refuses it
+            # is as right as one that takes it - the op is then simply without effect)
             from sismic.model import InternalEvent
-            it.queue(InternalEvent(op[1], u=op[2]))
+            try:
+                it.queue(InternalEvent(op[1], u=op[2]))
+            except (ValueError, TypeError):
+                pass
             return None
         if op[0] == 'step':
             if self.log is not None:
